@@ -37,7 +37,7 @@ class GradientCase(Case):
     def __init__(self, cid, *, N, R, P, K=1, C=0, mask=None, design="random", shared=False, seed=0, pmin=1, rmin=1,
                  merge=False, estimators=("mean",), obj_est=None, con_est=None, weights=None, symflags="all",
                  boundary="truncate_both", lower=-100.0, upper=100.0, x=None, magnitude=0.1, split=False,
-                 identical=False):
+                 identical=False, sampler_map=None):
         self.id = cid
         self.N, self.R, self.P, self.K, self.C = N, R, P, K, C
         self.mask = list(mask) if mask is not None else None
@@ -60,9 +60,7 @@ class GradientCase(Case):
         else:
             raise ValueError(design)
         D = np.round(D * 64) / 64  # short dyadic rationals keep the exact arithmetic small
-        for j in range(N):
-            if j not in self.free:
-                D[..., j] = 0.0  # the sampler contract (C17)
+        D[D == 0] = 1.0 / 64       # every variable would move if a sampler were (wrongly) given it
         if shared:  # real samplers hand out the shared block once per realization
             D = np.repeat(D, R, axis=0)
         self.shared_design = shared
@@ -71,7 +69,9 @@ class GradientCase(Case):
         self.cfg0 = ens.ensemble_config(
             N=N, R=R, P=P, K=K, C=C, mask=mask, lower=lower, upper=upper, x0=list(self.xv), magnitudes=magnitude,
             boundary=boundary, pmin=pmin, rmin=rmin, merge=merge, estimators=estimators, obj_est=obj_est, con_est=con_est,
-            samplers=[{"method": "stub/x", "shared": shared}],
+            samplers=[{"method": "stub/x", "shared": shared}] if sampler_map is None else
+            [{"method": f"stub/s{i}", "shared": shared} for i in range(max(sampler_map) + 1)],
+            sampler_map=sampler_map,
         )
         # the deltas the real code will see (concrete): computed by the real _perturb_variables at run time;
         # here only for the conditioning premise, recomputed from the reported perturbed variables in props
@@ -126,7 +126,14 @@ class GradientCase(Case):
         inject(cfg.realizations, weights=env.arr(inp["w"], writeable=False))
         inject(cfg.objectives, weights=env.arr(inp["ow"], writeable=False))
         pm = ens.stub_manager()
-        ens.set_samples(lambda s: env.const(self.design))
+        def samples(sampler):
+            # the sampler contract (C17): zero outside the variables ropt assigned to this sampler
+            a = self.design.copy()
+            if sampler.mask is not None:
+                a[..., ~np.asarray(sampler.mask)] = 0.0
+            return env.const(a)
+
+        ens.set_samples(samples)
         if not isinstance(inp["pmin"], int):
             inject(cfg.gradient, perturbation_min_success=env.num(inp["pmin"]))
         if not isinstance(inp["rmin"], int):
@@ -355,6 +362,8 @@ def build_cases(tier):
     add(N=3, R=2, P=4, mask=(True, False, True), symflags="perturbations", design="normal")
     add(N=2, R=3, P=2, symflags="unperturbed", design="axes")
     add(N=2, R=2, P=3, symflags="r0", shared=True, split=True)
+    add(N=3, R=2, P=3, mask=(True, False, True), sampler_map=(0, 0, 1), symflags="unperturbed")
+    add(N=3, R=2, P=3, mask=(False, True, True), sampler_map=(1, 0, 1), symflags="none", K=2)
     add(N=2, R=2, P=2, symflags="all", boundary="mirror_both", lower=-0.05, upper=0.05, x=(0.0, 0.03), magnitude=0.1)
     # stddev chain rule
     add(N=2, R=2, P=2, estimators=("stddev",), symflags="none", design="axes")
